@@ -10,6 +10,11 @@ pub fn exec_op2(sim: &Sim, op: &Op, _in_cb: bool) {
         Op::InsertExecutor { id, script } => crate::exec::insert_executor(sim, *id, script),
         Op::Schedule { exec, task, pendings, script } => crate::exec::schedule(sim, *exec, *task, *pendings, script),
         Op::Wake(t) => crate::exec::wake(sim, *t),
+        Op::SigNew { id, sigs, script } => crate::sig::sig_new(sim, *id, sigs, script),
+        Op::SigAdd(id, s) => crate::sig::sig_change(sim, *id, 0, s),
+        Op::SigRemove(id, s) => crate::sig::sig_change(sim, *id, 1, s),
+        Op::SigSet(id, s) => crate::sig::sig_change(sim, *id, 2, s),
+        Op::Raise(s) => crate::sig::raise(sim, *s),
         Op::InsertTransient { id, child, from_default, script } => crate::transient::insert_transient(sim, *id, child, *from_default, script),
         Op::TrRemove(id) | Op::TrMap(id) | Op::TrReplace(id, _) => crate::transient::tr_op(sim, *id, op, _in_cb),
         Op::AdaptIo { id, fd, blocking, .. } => crate::adapter::adapt_io(sim, *id, *fd, *blocking),
